@@ -88,13 +88,17 @@ PROPS = {
         ],
     ),
     "C15": dict(
-        assumptions=["'fresh engine' = NewPolicyEngineWithObjects(current objects); states whose Namespace object was deleted are outside the answer comparison (crash freedom still checked)"],
+        assumptions=["'fresh engine' = NewPolicyEngineWithObjects(current objects); states whose Namespace object was deleted are outside the answer comparison (crash freedom still checked)",
+                     "SetResources is modelled as the InsertObject calls its documentation names (namespaces, policies, pods; stops at the first error)"],
         groups=[
             dict(pkg=EVAL, harness="harness/eval", shared="harness/shared",
-                 quick=ev("^ZZ_C15_", "histories of 2 operations (each optionally followed by a query) from a base state, over 17 operations: insert/update/delete of a namespace, "
-                          "2 owned pods, a NetworkPolicy in two variants, 2 ANPs with symbolic priorities, the BANP; policy port ranges symbolic",
-                          "longer histories; LRU eviction (needs >500 keys); SetResources", models=60),
-                 thorough=ev("^ZZ_C15_", "the quick bound again (the larger menus do not finish inside the time a check may take here: see DESIGN 10.8) with 400 natively re-run sampled paths", "as quick", models=400, menus=0)),
+                 quick=ev("^ZZ_C15_(History|CacheKeys|PortUpdate)$", "histories of 2 operations (the first optionally followed by a query) from 6 base states, over 23 operations: insert/update/delete of a namespace (two label variants), "
+                          "2 owned pods, updates of a pod (other labels under the same owner; another owner), a NetworkPolicy in two variants, 3 ANPs with symbolic priorities, the BANP, ClearResources, SetResources; policy port ranges symbolic. "
+                          "CacheKeys: a verdict cached for one query never answers another (direction, protocol, protocol spelling, port, port prefix). "
+                          "PortUpdate: a Pod / Deployment replaced by one with the same owner and labels but another number (symbolic) behind the named port the policy allows",
+                          "longer histories (thorough: 3 over two half alphabets); LRU eviction (needs >500 keys)", models=60),
+                 thorough=ev("^ZZ_C15_", "the quick bound plus histories of 3 operations over each of two half alphabets (15 namespace/pod/NetworkPolicy/Clear/SetResources operations; 12 namespace/ANP/BANP operations); 400 natively re-run sampled paths",
+                             "histories of 3 operations mixing the two halves; longer histories; LRU eviction", models=400, menus=0, maxpaths=1500000)),
         ],
     ),
     "C12": dict(
